@@ -394,6 +394,11 @@ impl Prioritize {
             // capacity, and so we shouldn't "transition" on it, but just evict
             // it and continue the loop.
             if !(stream.state.is_send_streaming() || stream.buffered_send_data > 0) {
+                #[cfg(feature = "verif")]
+                crate::verif::event(crate::verif::Ev::Note {
+                    site: "evict-from-pending-capacity",
+                    id: stream.id.into(),
+                });
                 continue;
             }
 
